@@ -15,7 +15,7 @@ import (
 	"verif/harness/stats"
 )
 
-const ruleC20 = "rapid-generated limit L (7..64, 4090..4100, default 65536, 70000) given through ReadConfig.MaxEventSize or Connection.Buffer(buf, L) with cap(buf) <= L, and streams built from blocks (blank lines + event lines + terminator, LF/CR/CRLF) whose total size is drawn around L, 2L, L/2 and 4096 (+-4), plus endless single lines, endless events without a blank line, blank-line-only and comment-only streams; read plans as C01 plus large chunks, through a counting reader. Oracle from the reference interpreter's block table: all blocks < L => result identical to the reference; otherwise exactly the events of blocks 0..j-1 intact, then bufio.ErrTooLong and nothing else, where j is the first block larger than L+2 or an earlier block of size L..L+2 (either way allowed there), and at most L bytes were pulled beyond the end of block j-1. Never a panic. Non-trivial: some block is within +-8 bytes of L or of 4096, or an unterminated run >= L exists. Distinct: FNV-64 of the JSON of the case."
+const ruleC20 = "rapid-generated limit L (7..64, 4090..4100, default 65536, 70000) given through ReadConfig.MaxEventSize or Connection.Buffer(buf, L) with cap(buf) <= L, and streams built from blocks (blank lines + event lines + terminator, LF/CR/CRLF) whose total size is drawn around L, 2L, L/2 and 4096 (+-4), plus endless single lines, endless events without a blank line, blank-line-only and comment-only streams; read plans as C01 plus large chunks, through a counting reader. Oracle from the reference interpreter's block table: each block needs a buffer of R = size - (1 if its final terminator is CRLF) + (0 or 1 left-over LF of a preceding CRLF-terminated block) bytes; R <= L for every block => result identical to the reference; otherwise exactly the events of blocks 0..j-1 intact, then bufio.ErrTooLong and nothing else, where j is the first block whose smallest R exceeds L (or an earlier block for which only the left-over byte decides), and at most L bytes were pulled beyond the end of block j-1; an unterminated tail overflows iff it fills the buffer before EOF is seen. Never a panic. Non-trivial: some block is within +-8 bytes of L or of 4096, or an unterminated run >= L exists. Distinct: FNV-64 of the JSON of the case."
 
 type BlockSpec struct {
 	Blank   int    `json:"blank,omitempty"` // blank lines before the event
@@ -54,8 +54,8 @@ func genC20(t *rapid.T) C20Case {
 		c.L = 70000
 	}
 	L := c.limit()
-	c.Via = stats.From(t, []string{"read", "read", "conn"}, "via")
-	if c.L == 0 && c.Via == "conn" {
+	c.Via = stats.From(t, []string{"read", "read", "conn", "connbuf"}, "via")
+	if c.L == 0 && c.Via != "read" {
 		c.Via = "read" // the default limit is not configurable through Buffer
 	}
 	if c.Via == "conn" {
@@ -152,23 +152,24 @@ func checkC20Raw(t *testing.T, c C20Case, stream []byte) *stats.Verdict {
 			v.Class("merged-unterminated")
 		}
 	}
-	ref := oracle.Interpret(stream, "", map[string]oracle.Mode{"read": oracle.Read, "conn": oracle.Connection}[c.Via])
+	ref := oracle.Interpret(stream, "", map[string]oracle.Mode{"read": oracle.Read, "conn": oracle.Connection, "connbuf": oracle.Connection}[c.Via])
 	v.Class("via:" + c.Via)
 	v.Class(fmt.Sprintf("limit:%s", map[bool]string{true: "default", false: "set"}[c.L == 0]))
 
-	// block table -> what may / must happen
+	// block table -> what may / must happen. For the scanner a block needs a buffer of
+	//   R = size - (1 if its final terminator is CRLF: it is emitted at the CR) + leftover
+	// bytes, where leftover is 1 when the PREVIOUS block ended in CRLF and was emitted at its CR
+	// (that depends on where the reads happened to stop, so it is 0 or 1). A terminated block is
+	// delivered iff R <= L; an unterminated tail (no blank line before EOF) only while the buffer
+	// never fills, i.e. iff size + leftover < L. Only the leftover byte is left open.
 	first := -1 // first block that MUST overflow
 	var band []int
 	for i, b := range ref.Blocks {
 		size := b.End - b.Start
-		// For the scanner a block may be one byte longer than in the stream: when the previous
-		// block ends in CRLF and the reads happen to stop at its CR, the block is emitted there
-		// and the LF is left over in front of this one.
-		eff := size
+		prevCRLF := 0
 		if i > 0 && strings.HasSuffix(string(stream[:b.Start]), "\r\n") {
-			eff++
+			prevCRLF = 1
 		}
-		contentful := strings.Trim(string(stream[b.Start:b.End]), "\r\n") != ""
 		if abs(size-L) <= 8 || abs(size-4096) <= 8 {
 			v.NonTrivial = true
 		}
@@ -176,14 +177,25 @@ func checkC20Raw(t *testing.T, c C20Case, stream []byte) *stats.Verdict {
 			v.NonTrivial = true
 			v.Class("unterminated-run>=L")
 		}
+		var rmin, rmax int
+		if b.Terminated {
+			rmin = size
+			if strings.HasSuffix(string(stream[b.Start:b.End]), "\r\n") {
+				rmin--
+			}
+			rmax = rmin + prevCRLF
+		} else {
+			// an unterminated tail is flushed at EOF; it overflows once the buffer is full before
+			// EOF is seen: certainly when size > L, never when size+leftover < L, and at exactly L
+			// it depends on whether the reader reports EOF together with the last bytes
+			rmin, rmax = size, size+1+prevCRLF
+		}
 		switch {
-		case size > L+2 && contentful:
+		case rmin > L:
 			if first < 0 {
 				first = i
 			}
-		case eff >= L:
-			// L..L+2 (+1 left over): the statement promises delivery only below the limit, and
-			// a block may be emitted before the last byte(s) of its terminator arrived.
+		case rmax > L:
 			if first < 0 {
 				band = append(band, i)
 			}
@@ -223,12 +235,17 @@ func checkC20Raw(t *testing.T, c C20Case, stream []byte) *stats.Verdict {
 			}
 		}
 		pulled = cr.Pulled
-	case "conn":
+	case "conn", "connbuf":
 		var buf []byte
 		if c.BufCap > 0 {
 			buf = make([]byte, 0, c.BufCap)
 		}
-		res := runConn(t, [][]byte{stream}, c.Plan, buf, c.L)
+		maxSize := c.L
+		if c.Via == "connbuf" {
+			// bufio's "use only this buffer" idiom: Buffer(make([]byte, 0, L), 0) - the limit is cap(buf)
+			buf, maxSize = make([]byte, 0, c.L), 0
+		}
+		res := runConn(t, [][]byte{stream}, c.Plan, buf, maxSize)
 		if res.panicked != nil {
 			return v.Failf("panic", "Connection panicked: %v", res.panicked)
 		}
